@@ -61,12 +61,7 @@ def dstr(vals):
 
 
 def finding_key(case, impl, model):
-    """Digest's Display prints the `-k` form of BFieldElement's Display for elements within 256 of p,
-    which Digest::from_str (u64::from_str) rejects."""
-    parts = case.split()
-    if parts[0] == "display_rt" and impl == "ERR" and model.startswith("SPECDIFF model=ERR "):
-        if any(int(v) % P >= P - 256 for v in parts[1:6]):
-            return "digest-display-negative-form"
+    """No known finding: the Display defect (key digest-display-negative-form) was repaired in /repo (e310cb2)."""
     return None
 
 
